@@ -29,8 +29,8 @@ var Registry = map[string]func(*core.Prog, *core.Report){
 	"C10": C10,
 	"C11": with(C11, frameGroup),
 	"C12": with(C12, frameGroup),
-	"C13": C13,
-	"C14": C14,
+	"C13": with(C13, cfg1OptionsImmutable),
+	"C14": with(C14, cfg1OptionsImmutable),
 	"C15": with(C15, pool2SingleRelease, rt2Decoded),
 	"C16": C16,
 	"C17": with(C17, bt3FlushLoopComplete),
